@@ -7,7 +7,7 @@
 (*   id    unique name of the form ("LDA abs,X")                                                      *)
 (*   mn    mnemonic as written in the source                                                          *)
 (*   cpus  set of CPU names (argument of the assembler's CPU statement) that have this form           *)
-(*   args  sequence of argument templates [pre, f, post]: text pre \o <operand f> \o post; f = 0 means *)
+(*   args  sequence of argument templates [pre, f, post, sgn]: text pre \o <operand f> \o post; f = 0 means *)
 (*         a purely literal argument ("A", "(HL)")                                                    *)
 (*   flds  sequence of operand field descriptors (below)                                              *)
 (*   enc   sequence of encoding units (bytes, or 14/16-bit words): unit = c + sum of field pieces     *)
@@ -25,6 +25,8 @@
 (*              0 <= t <= AddrMax; e = d \div scale (two's complement in w bits)                       *)
 (*   k = "page" operand = target address t; legal iff t lies in the 2^w-aligned page of pc + base;    *)
 (*              e = t % 2^w                                                                           *)
+(*   k = "relw" operand = target address t, encoded as (t - (pc + base)) mod 2^w: every address is    *)
+(*              reachable (MSP430 symbolic mode)                                                      *)
 (*   k = "enum" operand = index into names (sequence of <<spelling, code>>); e = code                 *)
 (*   w = number of encoded bits, sg = TRUE if the canonical decoded value is signed                   *)
 (*   gmin..gmax: only operand values in this interval are generated for the field (used where the     *)
@@ -63,6 +65,10 @@ FRel(w, base) ==
 FRelScaled(w, base, scale) == [FRel(w, base) EXCEPT !.scale = scale, !.lo = -(2^(w-1)) * scale,
                                !.hi = (2^(w-1) - 1) * scale, !.glo = -(2^(w-1)) * scale,
                                !.ghi = (2^(w-1) - 1) * scale]
+\* PC-relative address without range limit: the w-bit difference wraps around (MSP430 symbolic mode)
+FRelWrap(w, base) ==
+  [k |-> "relw", lo |-> 0, hi |-> 0, glo |-> 0, ghi |-> 0, scale |-> 1, base |-> base, w |-> w, sg |-> FALSE,
+   names |-> <<>>, gmin |-> -(2^30), gmax |-> 2^30]
 FPage(w, base) ==
   [k |-> "page", lo |-> 0, hi |-> 0, glo |-> 0, ghi |-> 0, scale |-> 1, base |-> base, w |-> w, sg |-> FALSE,
    names |-> <<>>, gmin |-> -(2^30), gmax |-> 2^30]
@@ -70,7 +76,11 @@ FEnum(names, w) ==
   [k |-> "enum", lo |-> 1, hi |-> Len(names), glo |-> 1, ghi |-> Len(names), scale |-> 1, base |-> 0, w |-> w,
    sg |-> FALSE, names |-> names, gmin |-> -(2^30), gmax |-> 2^30]
 
-Arg(pre, f, post) == [pre |-> pre, f |-> f, post |-> post]
+Arg(pre, f, post) == [pre |-> pre, f |-> f, post |-> post, sgn |-> FALSE, f2 |-> 0, post2 |-> ""]
+\* argument with two operands: pre \o <f> \o post \o <f2> \o post2, e.g. MSP430 "X(Rn)"
+Arg2(pre, f, post, f2, post2) == [pre |-> pre, f |-> f, post |-> post, sgn |-> FALSE, f2 |-> f2, post2 |-> post2]
+\* operand written with an explicit sign: "(IX" + d + ")" is rendered "(IX+5)" / "(IX-5)"
+SArg(pre, f, post) == [pre |-> pre, f |-> f, post |-> post, sgn |-> TRUE, f2 |-> 0, post2 |-> ""]
 Lit(text) == Arg(text, 0, "")
 Op(f) == Arg("", f, "")
 P(f, shr, w, shl) == [f |-> f, shr |-> shr, w |-> w, shl |-> shl]
@@ -84,18 +94,21 @@ Legal(fld, v, pc, addrMax) ==
     [] fld.k = "rel"  -> LET d == v - (pc + fld.base) IN
                            fld.lo <= d /\ d <= fld.hi /\ d % fld.scale = 0 /\ 0 <= v /\ v <= addrMax
     [] fld.k = "page" -> 0 <= v /\ v <= addrMax /\ InPage(fld, v, pc)
+    [] fld.k = "relw" -> 0 <= v /\ v <= addrMax
     [] fld.k = "enum" -> v \in 1..Len(fld.names)
 
 \* convention zone: not legal, but an assembler may accept the two's complement spelling
 Grey(fld, v, pc, addrMax) ==
-  /\ fld.k = "num" /\ ~Legal(fld, v, pc, addrMax)
-  /\ fld.glo <= v /\ v <= fld.ghi /\ v % fld.scale = 0
+  \/ /\ fld.k = "num" /\ ~Legal(fld, v, pc, addrMax)
+     /\ fld.glo <= v /\ v <= fld.ghi /\ v % fld.scale = 0
+  \/ fld.k = "relw" /\ v < 0 /\ v >= -(2^(fld.w - 1))       \* negative spelling of an address
 
 \* value placed into the instruction (before slicing into pieces)
 Enc(fld, v, pc) ==
   CASE fld.k = "num"  -> v \div fld.scale
     [] fld.k = "rel"  -> (v - (pc + fld.base)) \div fld.scale
     [] fld.k = "page" -> v % (2^fld.w)
+    [] fld.k = "relw" -> (v - (pc + fld.base)) % (2^fld.w)
     [] fld.k = "enum" -> fld.names[v][2]
 
 \* ------------------------------------------------------------------------------- encoder
@@ -142,6 +155,7 @@ Extract(form, units, pc) ==
      IN CASE fld.k = "num"  -> e * fld.scale
           [] fld.k = "rel"  -> e * fld.scale + pc + fld.base
           [] fld.k = "page" -> ((pc + fld.base) \div (2^fld.w)) * (2^fld.w) + e
+          [] fld.k = "relw" -> (e + pc + fld.base) % (2^fld.w)
           [] fld.k = "enum" -> EnumIndex(fld, e)]
 
 \* canonical operand value: what Extract returns for the encoding of a legal / convention-zone operand
@@ -162,7 +176,10 @@ RenderOp(fld, v) == IF fld.k = "enum" THEN fld.names[v][1] ELSE ToString(v)
 RenderArgs(form, ops) ==
   [i \in 1..Len(form.args) |->
      LET a == form.args[i] IN
-       IF a.f = 0 THEN a.pre ELSE a.pre \o RenderOp(form.flds[a.f], ops[a.f]) \o a.post]
+       IF a.f = 0 THEN a.pre
+       ELSE IF a.sgn THEN a.pre \o (IF ops[a.f] >= 0 THEN "+" \o ToString(ops[a.f]) ELSE "-" \o ToString(-ops[a.f])) \o a.post
+       ELSE a.pre \o RenderOp(form.flds[a.f], ops[a.f]) \o a.post
+            \o (IF a.f2 = 0 THEN "" ELSE RenderOp(form.flds[a.f2], ops[a.f2]) \o a.post2)]
 
 \* ------------------------------------------------------------------------------- table sanity
 \* bits of unit u of the form that no operand piece covers (the opcode bits)
@@ -184,10 +201,18 @@ FormWellFormed(form, unitBits) ==
                       i <= Len(form.enc[u].parts) /\ form.enc[u].parts[i].f = f}
            cover(ui) == LET p == form.enc[ui[1]].parts[ui[2]] IN {p.shr + b : b \in 0..(p.w - 1)}
        IN /\ UNION {cover(ui) : ui \in pcs} = 0..(form.flds[f].w - 1)
-          /\ \A x, y \in pcs : x # y => cover(x) \cap cover(y) = {}
-  /\ \A i \in 1..Len(form.args) : form.args[i].f \in 0..Len(form.flds)
+          /\ (~form.alias => \A x, y \in pcs : x # y => cover(x) \cap cover(y) = {})
+  /\ \A i \in 1..Len(form.args) : form.args[i].f \in 0..Len(form.flds) /\ form.args[i].f2 \in 0..Len(form.flds)
   /\ form.tf \in 0..Len(form.flds)
   /\ form.flow \in {"next", "cond", "jump", "call", "ret", "stop"}
+
+\* no field of the form is placed twice (alias forms such as AVR LSL Rd = ADD Rd,Rd may do that)
+DupFree(form) ==
+  \A f \in 1..Len(form.flds) :
+    \A u1, u2 \in 1..Len(form.enc) : \A i \in 1..Len(form.enc[u1].parts) : \A j \in 1..Len(form.enc[u2].parts) :
+      LET p == form.enc[u1].parts[i] q == form.enc[u2].parts[j] IN
+        (p.f = f /\ q.f = f /\ <<u1, i>> # <<u2, j>>) =>
+           {p.shr + b : b \in 0..(p.w - 1)} \cap {q.shr + b : b \in 0..(q.w - 1)} = {}
 
 \* ------------------------------------------------------------------------------- opcode map (first unit)
 FieldInUnit1(form, f) ==
@@ -207,7 +232,14 @@ OpcodeCompat(form, x, unitBits) ==
 FormsMatching(forms, x, unitBits) == {g \in forms : ~g.alias /\ OpcodeCompat(g, x, unitBits)}
 DefinedOpcodes(forms, unitBits) == {x \in 0..(2^unitBits - 1) : FormsMatching(forms, x, unitBits) # {}}
 AmbiguousOpcodes(forms, unitBits) == {x \in 0..(2^unitBits - 1) : Cardinality(FormsMatching(forms, x, unitBits)) > 1}
-\* every alias has a primary form with identical encoding skeleton
-AliasesHavePrimary(forms) ==
-  \A a \in forms : a.alias => \E g \in forms : ~g.alias /\ g.cpus \cap a.cpus # {} /\ g.enc = a.enc
+\* every alias is a special case of a primary form: its opcode word (operand bits zero) starts a primary form
+AliasesHavePrimary(forms, unitBits) ==
+  \A a \in forms : a.alias => \E g \in forms : ~g.alias /\ OpcodeCompat(g, a.enc[1].c, unitBits)
+\* cheap pairwise variant of the ambiguity check for 16-bit opcode words: two non-alias forms differ in some
+\* opcode bit that is fixed in both (ignores value restrictions of register fields: stricter than needed)
+FixedBits(form, unitBits) == (0..(unitBits - 1)) \ PieceBits(form, 1)
+MaskDistinct(f, g, unitBits) ==
+  \E b \in FixedBits(f, unitBits) \cap FixedBits(g, unitBits) : Bits(f.enc[1].c, b, 1) # Bits(g.enc[1].c, b, 1)
+PairwiseDistinct(forms, unitBits) ==
+  \A f, g \in {h \in forms : ~h.alias} : f # g => MaskDistinct(f, g, unitBits)
 =============================================================================
